@@ -53,8 +53,10 @@ def check_clusters(m, cfg, rows, Q, ctx, wit):
         ref = MAB(list(m.arms), gen.make_lp(cfg["lp"]))
         d = np.asarray([rows["d"][i] for i in idx])
         r = np.asarray([rows["r"][i] for i in idx], dtype=float)
+        if not idx:
+            ctx.count("query_cells_without_stored_rows")  # the reference is the learning policy trained on the empty set
         if gen.is_linear(cfg):
-            ref.fit(d, r, np.asarray([rows["X"][i] for i in idx], dtype=float))
+            ref.fit(d, r, np.asarray([rows["X"][i] for i in idx], dtype=float).reshape(len(idx), len(q)))
             want = ref.predict_expectations(np.asarray([q], dtype=float))
         else:
             ref.fit(d, r)
